@@ -116,14 +116,16 @@ pub struct Settings {
     pub port: Option<u16>,
     /// use exactly these timeout settings (C18)
     pub ts_override: Option<TimeoutSettings>,
+    /// query this address instead of the fixed scripted one (real loopback servers)
+    pub ip_override: Option<IpAddr>,
 }
 
 impl Settings {
     pub fn gen(rng: &mut Rng) -> Self {
         let t = [GatherToggle::Skip, GatherToggle::Try, GatherToggle::Enforce];
-        Self { retries: rng.below(3) as usize, timeouts_some: rng.bool(), gather_players: *rng.pick(&t), gather_rules: *rng.pick(&t), check_app_id: rng.bool(), port: rng.bool().then(|| rng.range(1, 65535) as u16), ts_override: None }
+        Self { retries: rng.below(3) as usize, timeouts_some: rng.bool(), gather_players: *rng.pick(&t), gather_rules: *rng.pick(&t), check_app_id: rng.bool(), port: rng.bool().then(|| rng.range(1, 65535) as u16), ts_override: None, ip_override: None }
     }
-    pub fn fixed() -> Self { Self { retries: 0, timeouts_some: true, gather_players: GatherToggle::Enforce, gather_rules: GatherToggle::Enforce, check_app_id: false, port: None, ts_override: None } }
+    pub fn fixed() -> Self { Self { retries: 0, timeouts_some: true, gather_players: GatherToggle::Enforce, gather_rules: GatherToggle::Enforce, check_app_id: false, port: None, ts_override: None, ip_override: None } }
     pub fn ts(&self) -> Option<TimeoutSettings> {
         if let Some(t) = self.ts_override {
             return Some(t);
@@ -141,48 +143,98 @@ impl Settings {
 
 const IP: IpAddr = IpAddr::V4(Ipv4Addr::new(10, 0, 0, 9));
 
+macro_rules! dispatch {
+    ($ep:expr, $s:expr, $f:ident, $g:ident) => {{
+        let ep: &Ep = $ep;
+        let s: &Settings = $s;
+        let ip: IpAddr = s.ip_override.unwrap_or(IP);
+        let sa = SocketAddr::new(ip, s.port.unwrap_or(27015));
+        let ts = s.ts();
+        match ep {
+            Ep::Valve(i) => {
+                let gs = GatheringSettings { players: s.gather_players, rules: s.gather_rules, check_app_id: s.check_app_id };
+                $f(valve::query(&sa, engine_classes()[*i].1, Some(gs), ts))
+            }
+            Ep::ValveGame(i) => $f((VALVE_GAMES[*i].2)(&ip, s.port)),
+            Ep::Gs1 => $f(gamespy::one::query(&sa, ts)),
+            Ep::Gs1Vars => $f(gamespy::one::query_vars(&sa, ts)),
+            Ep::Gs2 => $f(gamespy::two::query(&sa, ts)),
+            Ep::Gs3 => $f(gamespy::three::query(&sa, ts)),
+            Ep::Gs3Vars => $f(gamespy::three::query_vars(&sa, ts)),
+            Ep::Quake(1) => $f(quake::one::query(&sa, ts)),
+            Ep::Quake(2) => $f(quake::two::query(&sa, ts)),
+            Ep::Quake(_) => $f(quake::three::query(&sa, ts)),
+            Ep::Unreal2 => $f(unreal2::query(&sa, &unreal2::GatheringSettings { players: s.gather_players, mutators_and_rules: s.gather_rules }, ts)),
+            Ep::McAuto => $f(games::minecraft::protocol::query(&sa, ts, None)),
+            Ep::McAutoGame => $f(games::minecraft::query(&ip, s.port)),
+            Ep::McJava => $f(games::minecraft::protocol::query_java(&sa, ts, Some(games::minecraft::RequestSettings { hostname: "h".into(), protocol_version: 765 }))),
+            Ep::McBedrock => $f(games::minecraft::protocol::query_bedrock(&sa, ts)),
+            Ep::McLegacy => $f(games::minecraft::protocol::query_legacy(&sa, ts)),
+            Ep::McLegacySpecific(g) => $f(games::minecraft::protocol::query_legacy_specific([LegacyGroup::V1_6, LegacyGroup::V1_4, LegacyGroup::VB1_8][*g as usize], &sa, ts)),
+            Ep::Ffow => $f(games::ffow::query_with_timeout(&ip, s.port, ts)),
+            Ep::Savage2 => $f(games::savage2::query_with_timeout(&ip, s.port, ts)),
+            Ep::Jc2m => $f(games::jc2m::query_with_timeout(&ip, s.port, ts)),
+            Ep::Mindustry => $f(games::mindustry::query(&ip, s.port, &ts)),
+            Ep::TheShip => $f(games::theship::query_with_timeout(&ip, s.port, ts)),
+            Ep::Battalion => $f(games::battalion1944::query(&ip, s.port)),
+            Ep::MasterQuery => {
+                let f = SearchFilters::new().insert(Filter::RunsAppID(440)).insert_nand(Filter::IsEmpty(true));
+                $f(ValveMasterServer::new(&sa).and_then(|mut m| m.query(Region::Europe, Some(f))))
+            }
+            Ep::MasterSpecific => $f(ValveMasterServer::new(&sa).and_then(|mut m| m.query_specific(Region::Others, &None, "1.2.3.4", 27015))),
+            Ep::Generic(i) => {
+                let g = gamedig::GAMES.get(game_ids()[*i]).unwrap();
+                $g(gamedig::query_with_timeout_and_extra_settings(g, &ip, s.port, ts, if s.check_app_id { Some(s.extra()) } else { None }))
+            }
+        }
+    }};
+}
+
 /// Call the entry point; the result value is dropped, only its class is kept.
 pub fn call(ep: &Ep, s: &Settings) -> Result<(), gamedig::GDErrorKind> {
     fn unit<T>(r: GDResult<T>) -> Result<(), gamedig::GDErrorKind> { r.map(|_| ()).map_err(|e| e.kind) }
-    let sa = SocketAddr::new(IP, s.port.unwrap_or(27015));
-    let ts = s.ts();
-    match ep {
-        Ep::Valve(i) => {
-            let gs = GatheringSettings { players: s.gather_players, rules: s.gather_rules, check_app_id: s.check_app_id };
-            unit(valve::query(&sa, engine_classes()[*i].1, Some(gs), ts))
-        }
-        Ep::ValveGame(i) => unit((VALVE_GAMES[*i].2)(&IP, s.port)),
-        Ep::Gs1 => unit(gamespy::one::query(&sa, ts)),
-        Ep::Gs1Vars => unit(gamespy::one::query_vars(&sa, ts)),
-        Ep::Gs2 => unit(gamespy::two::query(&sa, ts)),
-        Ep::Gs3 => unit(gamespy::three::query(&sa, ts)),
-        Ep::Gs3Vars => unit(gamespy::three::query_vars(&sa, ts)),
-        Ep::Quake(1) => unit(quake::one::query(&sa, ts)),
-        Ep::Quake(2) => unit(quake::two::query(&sa, ts)),
-        Ep::Quake(_) => unit(quake::three::query(&sa, ts)),
-        Ep::Unreal2 => unit(unreal2::query(&sa, &unreal2::GatheringSettings { players: s.gather_players, mutators_and_rules: s.gather_rules }, ts)),
-        Ep::McAuto => unit(games::minecraft::protocol::query(&sa, ts, None)),
-        Ep::McAutoGame => unit(games::minecraft::query(&IP, s.port)),
-        Ep::McJava => unit(games::minecraft::protocol::query_java(&sa, ts, Some(games::minecraft::RequestSettings { hostname: "h".into(), protocol_version: 765 }))),
-        Ep::McBedrock => unit(games::minecraft::protocol::query_bedrock(&sa, ts)),
-        Ep::McLegacy => unit(games::minecraft::protocol::query_legacy(&sa, ts)),
-        Ep::McLegacySpecific(g) => unit(games::minecraft::protocol::query_legacy_specific([LegacyGroup::V1_6, LegacyGroup::V1_4, LegacyGroup::VB1_8][*g as usize], &sa, ts)),
-        Ep::Ffow => unit(games::ffow::query_with_timeout(&IP, s.port, ts)),
-        Ep::Savage2 => unit(games::savage2::query_with_timeout(&IP, s.port, ts)),
-        Ep::Jc2m => unit(games::jc2m::query_with_timeout(&IP, s.port, ts)),
-        Ep::Mindustry => unit(games::mindustry::query(&IP, s.port, &ts)),
-        Ep::TheShip => unit(games::theship::query_with_timeout(&IP, s.port, ts)),
-        Ep::Battalion => unit(games::battalion1944::query(&IP, s.port)),
-        Ep::MasterQuery => {
-            let f = SearchFilters::new().insert(Filter::RunsAppID(440)).insert_nand(Filter::IsEmpty(true));
-            unit(ValveMasterServer::new(&sa).and_then(|mut m| m.query(Region::Europe, Some(f))))
-        }
-        Ep::MasterSpecific => unit(ValveMasterServer::new(&sa).and_then(|mut m| m.query_specific(Region::Others, &None, "1.2.3.4", 27015))),
-        Ep::Generic(i) => {
-            let g = gamedig::GAMES.get(game_ids()[*i]).unwrap();
-            unit(gamedig::query_with_timeout_and_extra_settings(g, &IP, s.port, ts, if s.check_app_id { Some(s.extra()) } else { None }))
+    dispatch!(ep, s, unit, unit)
+}
+
+/// Call the entry point and render the result canonically (JSON text, sets sorted).
+pub fn call_render(ep: &Ep, s: &Settings) -> Result<String, gamedig::GDErrorKind> {
+    /// canonical text: object keys sorted (serde_json may preserve insertion order), sets sorted
+    fn canon(v: &mut serde_json::Value) {
+        match v {
+            serde_json::Value::Object(m) => {
+                let mut entries: Vec<(String, serde_json::Value)> = std::mem::take(m).into_iter().collect();
+                entries.sort_by(|a, b| a.0.cmp(&b.0));
+                for (k, mut x) in entries {
+                    if k == "mutators" {
+                        if let serde_json::Value::Array(a) = &mut x {
+                            a.sort_by_key(|e| e.to_string());
+                        }
+                    }
+                    canon(&mut x);
+                    m.insert(k, x);
+                }
+            }
+            serde_json::Value::Array(a) => a.iter_mut().for_each(canon),
+            _ => {}
         }
     }
+    fn val<T: serde::Serialize>(r: GDResult<T>) -> Result<String, gamedig::GDErrorKind> {
+        r.map(|t| {
+            let mut v = serde_json::to_value(t).unwrap_or(serde_json::Value::Null);
+            canon(&mut v);
+            v.to_string()
+        })
+        .map_err(|e| e.kind)
+    }
+    fn boxed(r: GDResult<Box<dyn gamedig::protocols::types::CommonResponse>>) -> Result<String, gamedig::GDErrorKind> {
+        r.map(|b| {
+            let mut v = serde_json::to_value(b.as_original()).unwrap_or(serde_json::Value::Null);
+            canon(&mut v);
+            v.to_string()
+        })
+        .map_err(|e| e.kind)
+    }
+    dispatch!(ep, s, val, boxed)
 }
 
 /// A reactive, well-formed server for the entry point (small state), used to record a seed script.
